@@ -22,7 +22,7 @@ func registerC05() {
 		ID:    "C05",
 		Level: "exploration",
 		Rule: "Files built through the public API (NewHeader, NewFile, message constructors, exported fields) for all 17 file types x all hosted message types; field subsets " +
-			"{none, one, half, all, PRNG} differing between messages of one slice (forces the union definition); boundary and PRNG values; both byte orders; headers with and " +
+			"{none, one, half, all, PRNG} differing between messages of one slice (forces the union definition); boundary and PRNG values, one string field in six longer than its field (up to 600 bytes: the wire must carry the longest prefix that fits without splitting a character); both byte orders; headers with and " +
 			"without CRC; protocol V10/V20; every fifth File is also encoded into a writer of another dynamic type (a file on disk, a bytes.Buffer already holding data, a bufio.Writer, a writer offering Seek/WriteAt/WriteString/ReadFrom) and must give the same bytes; every third case is preceded by an Encode that fails (writer error on the 1st-3rd write, or a string that is not valid UTF-8). The bytes Encode writes are parsed by the independent strict grammar parser (header, data size, both CRCs, definition before data, " +
 			"record lengths, size multiple of base size, known base byte, arch byte), every definition is checked against the profile, the stream is interpreted by the reference " +
 			"interpreter and compared with the File's own values, and the File's header data size / header CRC / file CRC are compared with the bytes written. Non-trivial: the File " +
@@ -43,11 +43,12 @@ func archOrder(a int) binary.ByteOrder {
 }
 
 // genRoundTripFile is shared by C05 and C06.
-func genRoundTripFile(rng *lib.Rand, idx uint64, noSources bool) (*fit.File, byte, int) {
+func genRoundTripFile(rng *lib.Rand, idx uint64, noSources bool, longStrings ...bool) (*fit.File, byte, int) {
 	fti := idx % uint64(len(lib.FileTypes))
 	ft := lib.FileTypes[fti].Type
 	arch := int(idx / uint64(len(lib.FileTypes)) % 2)
 	o := lib.FileGenOpts{FileType: ft, MaxPerSlot: 1 + rng.Intn(5), NoSources: noSources}
+	o.LongStrings = len(longStrings) > 0 && longStrings[0]
 	if idx%97 == 0 {
 		o.MaxPerSlot = 40 + rng.Intn(300) // long slices: one definition serving hundreds of records, files of 10-300 KB
 	}
@@ -76,7 +77,7 @@ func countSet(ct *lib.Content) (msgs int) {
 
 func c05Case(c *lib.Ctx, idx uint64) {
 	rng := lib.NewRand("C05.files", idx)
-	f, ft, arch := genRoundTripFile(rng, idx, false)
+	f, ft, arch := genRoundTripFile(rng, idx, false, true)
 	if f == nil {
 		c.Violation(nil, "NewFile failed for valid file type %d", ft)
 		return
@@ -267,7 +268,7 @@ func encodeInto(kind int, f *fit.File, order binary.ByteOrder, fallback []byte) 
 // remakeFile rebuilds the File of case idx (the generators are deterministic).
 func remakeFile(idx uint64) *fit.File {
 	rng := lib.NewRand("C05.files", idx)
-	f, _, _ := genRoundTripFile(rng, idx, false)
+	f, _, _ := genRoundTripFile(rng, idx, false, true)
 	return f
 }
 
